@@ -24,6 +24,9 @@ type c19Val struct {
 	Sub    bool   `json:"has_sub"`
 	SubNum uint8  `json:"sub_num"`
 	SubExp uint8  `json:"sub_expected"`
+	// VSS > 0: restricted delivery and a MID of two entries that the tracker reads as a stream-switch
+	// signal id ("BLACKOUT:sig<VSS>" under ADI, "comcast:linear:licenserotation" under ADS information)
+	VSS uint8 `json:"vss_signal,omitempty"`
 }
 
 // mkDescriptor builds a descriptor through the public creation API, inside a time_signal signal.
@@ -46,6 +49,16 @@ func mkDescriptor(v c19Val) scte35.SegmentationDescriptor {
 		d.SetHasSubSegments(true)
 		d.SetSubSegmentNumber(v.SubNum)
 		d.SetSubSegmentsExpected(v.SubExp)
+	}
+	if v.VSS > 0 {
+		d.SetIsDeliveryNotRestricted(false)
+		d.SetUPIDType(scte35.SegUPIDMID)
+		a, b := scte35.CreateUPID(), scte35.CreateUPID()
+		a.SetUPIDType(scte35.SegUPIDADI)
+		a.SetUPID([]byte(fmt.Sprintf("BLACKOUT:sig%d", v.VSS)))
+		b.SetUPIDType(scte35.SegUPADSINFO)
+		b.SetUPID([]byte("comcast:linear:licenserotation"))
+		d.SetMID([]scte35.UPID{a, b})
 	}
 	sig.SetDescriptors([]scte35.SegmentationDescriptor{d})
 	return d
@@ -90,7 +103,8 @@ func mkDescriptorAdjusted(v c19Val) scte35.SegmentationDescriptor {
 		if sig, err := scte35.NewSCTE35(ref.S35Bytes(&sec)); err == nil && len(sig.Descriptors()) == 1 {
 			return sig.Descriptors()[0]
 		}
-		_, err := scte35.NewSCTE35(ref.S35Bytes(&sec)); panic(fmt.Sprintf("c19: reference section does not decode: %v % x", err, ref.S35Bytes(&sec)))
+		_, err := scte35.NewSCTE35(ref.S35Bytes(&sec))
+		panic(fmt.Sprintf("c19: reference section does not decode: %v % x", err, ref.S35Bytes(&sec)))
 	}
 	d := mkDescriptor(v)
 	if v.HasPTS {
